@@ -98,7 +98,7 @@ def check_quantiles(acc, d, ref, txt, case, sig, nq):
     lo, hi = ref.support_lo(), ref.support_hi()
     # the Schulz-Zimm law is the documented density sampled on the integers: its total is 1 + O(1/Mn) (same slack as in
     # the normalisation oracle); the other discrete laws are exact
-    dq = (1.0 / ref.mn + 1e-9) if fam == "schulz_zimm" else 1e-9
+    dq = (abs(1.0 - ref.int_total()) + 1e-9) if fam == "schulz_zimm" else 1e-9
     F = ref.cdf_int if fam == "schulz_zimm" else ref.cdf
     n_obs = 0
     for q in quantile_grid(nq):
@@ -116,6 +116,9 @@ def check_quantiles(acc, d, ref, txt, case, sig, nq):
             acc.count("quantile_stream_not_observable")  # the sampler uses a primitive the scripted stream does not know
             return False
         n_obs += 1
+        if math.isfinite(x) and ref.discrete and abs(x - round(x)) <= 1e-9 and ref.pmf(int(round(x))) <= 0.0:
+            acc.violation("quantile_support", f"{txt}: the draw at quantile {q!r} is {x!r}, a value to which the documented law gives probability 0", case, sig)
+            return True
         if not math.isfinite(x) or x < lo - 1e-9 or x > hi + 1e-9 or (ref.discrete and abs(x - round(x)) > 1e-9):
             acc.violation("quantile_support", f"{txt}: the draw at quantile {q!r} is {x!r}: not finite / outside the support [{lo}, {hi}]", case, sig)
             return True
@@ -181,9 +184,19 @@ def check_case(acc, fam, params, ndraw, seed, nq=200):
                 if np.any(pm < 0) or np.any(~np.isfinite(pm)):
                     acc.violation("nonnegative", f"{txt}: point probability negative / not finite at k={int(ks[np.argmax((pm < 0) | ~np.isfinite(pm))])}", case, sig)
                 tot = float(pm.sum())
-                tol = (1.0 / ref.mn + 1e-6) if fam == "schulz_zimm" else 1e-8
-                if abs(tot - 1.0) > tol:
-                    acc.violation("normalised", f"{txt}: point probabilities sum to {tot!r} over the support (tolerance {tol:.3g})", case, sig)
+                # schulz_zimm is the documented density sampled on the integers: its total is 1 + a discretisation error that is
+                # computed from the documented formula on the same grid (not bounded by a loose 1/Mn)
+                want_tot = float(sum(ref.pmf(int(k)) for k in ks)) if fam == "schulz_zimm" else 1.0
+                tol = 1e-7 if fam == "schulz_zimm" else 1e-8
+                if abs(tot - want_tot) > tol:
+                    acc.violation("normalised", f"{txt}: point probabilities sum to {tot!r} over the support, the documented law gives {want_tot!r} (tolerance {tol:.3g})", case, sig)
+                # point by point against the documented formula (coarse grid of <= 600 points incl. both ends)
+                step = max(1, len(ks) // 600)
+                for j in list(range(0, len(ks), step)) + [0, 1, 2, len(ks) - 1]:
+                    a_, b_ = float(pm[j]), ref.pmf(int(ks[j]))
+                    if abs(a_ - b_) > 1e-9 + 1e-7 * abs(b_):
+                        acc.violation("point_vs_reference", f"{txt}: point probability at {int(ks[j])} is {a_!r}, the documented law gives {b_!r}", case, sig)
+                        break
                 ran += 1
         else:
             pts = sorted({ref.mean, max(lo_q, ref.mean - ref.std), ref.mean + ref.std})
@@ -300,6 +313,8 @@ def _draws(d, ref, n, seed):
         v = float(v)
         if not math.isfinite(v) or v < lo - 1e-9 or v > hi + 1e-9 or (ref.discrete and abs(v - round(v)) > 1e-9):
             bad.append(v)
+        elif ref.discrete and ref.pmf(int(round(v))) <= 0.0:
+            bad.append(v)  # a value to which the documented law gives probability 0
         else:
             xs.append(v)
     return {"x": np.array(xs), "n": len(xs), "bad": bad, "raised": raised, "first_exc": first_exc, "first_type": first_type}
